@@ -50,7 +50,7 @@ INT_TYPES = {
     'int': ('s', 32), 'unsigned int': ('u', 32), 'unsigned': ('u', 32),
     'long': ('s', 64), 'unsigned long': ('u', 64),
     'long long': ('s', 64), 'unsigned long long': ('u', 64),
-    '_Bool': ('u', 1),
+    '_Bool': ('u', 1), 'bool': ('u', 1),
 }
 
 
@@ -516,7 +516,13 @@ class FnTr:
         inner = set(x['id'] for x in walk(root) if x.get('kind') == 'VarDecl')
         skip = set()
         written = self.written_roots(root)
-        for x in walk(root):
+        def walk_kept(n):
+            yield n
+            for c in kids(n):
+                if c.get('kind') and c.get('kind').endswith('Stmt') and self.is_skipped(c):
+                    continue
+                yield from walk_kept(c)
+        for x in walk_kept(root):
             k = x.get('kind')
             if k == 'ArraySubscriptExpr':
                 key = self.elem_key(x)
@@ -1396,6 +1402,8 @@ class FnTr:
             self.emit_event(cn, args, env, out)
             return V('()', ('void',), None, True)
         fi = self.unit.fninfo.get(cn)
+        if fi is None and cn in self.tu.funcs:
+            fi = self.unit.translate_aux(cn, self)
         if fi is None:
             raise Unsupported('call of `%s` (not translated, not a modelled libc function, not a declared effect)' % cn)
         if self.guard:
@@ -1571,10 +1579,26 @@ class FnTr:
             return 'some %s' % (val.p() if val is not None else parts[0])
         return 'some (%s)' % ', '.join(parts)
 
+    def is_skipped(self, s):
+        """registry "skip": statements that BEGIN with one of these macro / function names are left out (declared
+        not to influence the decision, e.g. the mutex macros around it); trusted, listed in the doc comment"""
+        names = self.spec.get('skip', [])
+        o = node_offset(s)
+        if not names or o is None:
+            return False
+        text = self.tu.src[o:o + 80]
+        for n in names:
+            b = n.encode()
+            if text.startswith(b) and not (text[len(b):len(b) + 1].isalnum() or text[len(b):len(b) + 1] == b'_'):
+                return True
+        return False
+
     def stmts(self, lst, env, k):
         if not lst:
             return k(env)
         s, rest = lst[0], lst[1:]
+        if self.is_skipped(s):
+            return self.stmts(rest, env, k)
         return self.stmt(s, env, lambda e: self.stmts(rest, e, k))
 
     def stmt(self, s, env, k):
@@ -2043,8 +2067,25 @@ class FnTr:
         return out + k(env)
 
     # ---------- whole function
+    def prefetch_callees(self):
+        """translate (as auxiliaries) the same-file functions this one calls, before its own body is analysed"""
+        if self.fragkind:
+            ci, fr = self.locate_fragment()
+            root = kids(fr)[ci] if self.fragkind == 'cond' else fr
+        else:
+            root = self.body()
+        for x in walk(root):
+            cn = call_name(x)
+            if cn and cn in self.tu.funcs and cn not in self.unit.fninfo and cn != self.node['name'] \
+                    and cn not in self.effects and cn not in self.noreturn:
+                try:
+                    self.unit.translate_aux(cn, self)
+                except Unsupported:
+                    pass        # reported when (if) the call is really translated
+
     def translate(self):
         global NORETURN
+        self.prefetch_callees()
         NORETURN = set(self.noreturn)
         info = self.signature()
         info.has_ev = self.has_ev
@@ -2091,6 +2132,8 @@ class FnTr:
             doc = ['/-- C: `%s`' % csig]
         if self.has_ev:
             doc.append('    declared effects (recorded in the last result, in order): %s' % ', '.join(self.effects + self.noreturn))
+        if self.spec.get('skip'):
+            doc.append('    statements left out (declared irrelevant to the decision): those beginning with %s' % ', '.join(self.spec['skip']))
         if info.inout and not self.fragkind:
             doc.append('    result: (%s)' % ', '.join((['return value'] if info.ret != ('void',) else []) +
                                                       ['*%s afterwards' % info.params[i].cname if info.params[i].kind == 'iptr'
@@ -2123,6 +2166,39 @@ class Unit:
         self.fninfo = {}
         self.used_fields = {}
         self.failed = []
+        self.sigs = {}
+        self.pending_aux = []      # texts of auxiliary definitions translated on demand (emitted before their caller)
+        self.aux_busy = set()
+        self.aux_failed = {}
+
+    def translate_aux(self, cn, caller):
+        """a function of the same file that a registered target calls: translated like a registered one, marked
+        @[simp] so that the bridge proofs see through it (extracting a helper / inlining it is then invisible)"""
+        global NORETURN
+        if cn in self.aux_failed:
+            raise Unsupported('call of `%s`, which is outside the subset: %s' % (cn, self.aux_failed[cn]))
+        if cn in self.aux_busy:
+            raise Unsupported('recursive call of `%s`' % cn)
+        node = self.tu.funcs[cn]
+        called = set(call_name(x) for x in walk(node) if x.get('kind') == 'CallExpr')
+        spec = {'name': cn, 'assume': list(caller.spec.get('assume', [])),
+                'effects': [e for e in caller.effects if e in called],
+                'noreturn': [e for e in caller.noreturn if e in called]}
+        self.aux_busy.add(cn)
+        saved = set(NORETURN)
+        try:
+            tr = FnTr(self.tu, self, node, spec)
+            text = tr.translate()
+        except Unsupported as e:
+            self.aux_failed[cn] = str(e)
+            raise Unsupported('call of `%s`, which is outside the subset: %s' % (cn, e))
+        finally:
+            self.aux_busy.discard(cn)
+            NORETURN = saved
+        self.fninfo[cn] = tr.info
+        self.pending_aux.append(text.replace('\ndef %s ' % cn, '\n@[simp] def %s ' % cn, 1)
+                                .replace(' -/\n@[simp] def', '\n    AUXILIARY (not registered: called by a registered target, translated on demand) -/\n@[simp] def', 1))
+        return tr.info
 
     def generate(self):
         tu = TU(self.repo, self.spec['file'])
@@ -2134,11 +2210,25 @@ class Unit:
             try:
                 if node is None:
                     raise Unsupported('no definition of `%s` in %s' % (f.get('in', fname), self.spec['file']))
+                if 'in' not in f and fname in self.fninfo:
+                    raise Unsupported('`%s` was already translated as an auxiliary of an earlier target: register it before its callers' % fname)
                 tr = FnTr(tu, self, node, f)
                 text = tr.translate()
                 self.fninfo[fname] = tr.info
+                texts.extend(self.pending_aux)
+                self.pending_aux = []
                 texts.append(text)
+                # the Lean signature the bridge theorem is stated for (recorded in the registry by --record-sigs)
+                m = re.search(r'^def %s (.*?) :=$' % re.escape(fname), text, re.M)
+                sig = m.group(1) if m else ''
+                self.sigs[fname] = sig
+                if f.get('sig') and sig != f['sig']:
+                    self.failed.append((fname, 'signature changed: parameters/result `%s` -> `%s` (the bridge theorem is stated '
+                                        'for the recorded signature; a bridge cannot follow a changed interface automatically: '
+                                        'restate it, then `c2lean.py --record-sigs`)' % (f['sig'], sig)))
             except Unsupported as e:
+                texts.extend(self.pending_aux)
+                self.pending_aux = []
                 self.failed.append((fname, str(e)))
                 texts.append('-- TRANSLATION FAILED for `%s`: %s' % (fname, e))
         structs = []
@@ -2170,6 +2260,9 @@ def load_targets(path):
         return json.load(f)
 
 
+SIGS = {}      # unit -> {target: Lean signature} of the last regen()
+
+
 def regen(repo, targets_path, outdir, units=None, write=True):
     """returns (changed_files, failures[(unit, fn, why)], texts{unit: text})"""
     targets = load_targets(targets_path)
@@ -2185,6 +2278,7 @@ def regen(repo, targets_path, outdir, units=None, write=True):
             text = '-- TRANSLATION FAILED for unit %s: %s\nnamespace PdshVerif.Gen.Fn.%s\nend PdshVerif.Gen.Fn.%s\n' % (uname, e, uname, uname)
         for (fn_, why) in u.failed:
             failures.append((uname, fn_, why))
+        SIGS[uname] = dict(u.sigs)
         texts[uname] = text
         path = os.path.join(outdir, 'Fn%s.lean' % uname)
         old = None
@@ -2209,8 +2303,28 @@ def main():
     ap.add_argument('--unit', action='append')
     ap.add_argument('--check', action='store_true', help='do not write; exit 2 if a file would change')
     ap.add_argument('--stdout', action='store_true')
+    ap.add_argument('--record-sigs', action='store_true', help='store the current Lean signatures in the registry ("sig")')
     a = ap.parse_args()
     changed, failures, texts = regen(a.repo, a.targets, a.out, a.unit, write=not (a.check or a.stdout))
+    if a.record_sigs:
+        raw = open(a.targets).read()
+        reg = json.loads(raw)
+        for uname, sigs in SIGS.items():
+            for f in reg['units'][uname]['functions']:
+                if f['name'] in sigs:
+                    f['sig'] = sigs[f['name']]
+        out = ['{', ' "comment": %s,' % json.dumps(reg['comment'], ensure_ascii=False), ' "units": {']
+        us = list(reg['units'].items())
+        for ui, (un, spec) in enumerate(us):
+            out += ['  %s: {' % json.dumps(un), '   "file": %s,' % json.dumps(spec['file']),
+                    '   "bridge_module": %s,' % json.dumps(spec['bridge_module']), '   "functions": [']
+            fs = spec['functions']
+            out += ['    %s%s' % (json.dumps(f, ensure_ascii=False), ',' if i < len(fs) - 1 else '') for i, f in enumerate(fs)]
+            out += ['   ]', '  }%s' % (',' if ui < len(us) - 1 else '')]
+        out += [' }', '}']
+        with open(a.targets, 'w') as fh:
+            fh.write('\n'.join(out) + '\n')
+        failures = [x for x in failures if not x[2].startswith('signature changed')]
     if a.stdout:
         for u, t in texts.items():
             sys.stdout.write(t)
